@@ -469,19 +469,13 @@ Proof. split; [apply perm_swap|vm_compute; discriminate]. Qed.
 
 (* ------------------------------------------------------------------ part 3: inventories *)
 
-Definition site_ok (s : site) : bool := is_known_sensitive (sshape s) || order_insensitive (sshape s).
+Definition site_ok (s : site) : bool := order_insensitive (sshape s).
 
 Lemma sites_sweep : forallb site_ok mapranges = true.
 Proof. vm_compute. reflexivity. Qed.
 
-Lemma sites_partial s : In s mapranges -> is_known_sensitive (sshape s) = false -> order_insensitive (sshape s) = true.
-Proof.
-  intros Hin Hk. pose proof (proj1 (forallb_forall site_ok mapranges) sites_sweep s Hin) as H.
-  unfold site_ok in H. rewrite Hk in H. exact H.
-Qed.
-
-Definition known_sensitive_names : list string :=
-  map sname (filter (fun s => is_known_sensitive (sshape s)) mapranges).
+Lemma sites_all s : In s mapranges -> order_insensitive (sshape s) = true.
+Proof. apply (proj1 (forallb_forall site_ok mapranges) sites_sweep). Qed.
 
 Lemma file_sites_sweep : forallb file_site_ok file_sites = true.
 Proof. vm_compute. reflexivity. Qed.
@@ -524,19 +518,6 @@ Proof.
   exists [(1, 10); (2, 20)]%N, [(2, 20); (1, 10)]%N.
   destruct last_of_two_differs as [ND [P [-> ->]]]. destruct first_of_two_differs as [_ [_ [-> ->]]].
   repeat split; auto; discriminate.
-Qed.
-
-Lemma sites_refuted_l :
-  known_sensitive_names =
-    [ "http/codegen/openapi/v2:summaryFromExpr#0"; "http/codegen/openapi/v2:summaryFromExpr#1";
-      "http/codegen/openapi/v2:summaryFromExpr#2"; "http/codegen/openapi/v2:summaryFromExpr#3";
-      "http/codegen/openapi/v2:summaryFromMeta#0"; "http/codegen/openapi/v3:buildOperation#0";
-      "http/codegen/openapi/v3:buildFileServerOperation#0" ]%string
-  /\ exists s, In s mapranges /\ order_insensitive (sshape s) = false.
-Proof.
-  split; [vm_compute; reflexivity|].
-  exists (mk_site "http/codegen/openapi/v3:buildOperation#0" KnownSensitive).
-  split; [vm_compute; tauto|reflexivity].
 Qed.
 
 Lemma file_sites_skip_l (s : file_site) :
